@@ -119,3 +119,135 @@ def branch_body(func, subject, cls_name):
                     if best is None or size > best[0]:
                         best = (size, n.body)
     return best[1] if best else None
+
+
+SEL_SRC = '''
+class SelectStub:
+    def __init__(self, names, order_by, source):
+        self.names = names
+        self.order_by = order_by
+        self.source = source
+class CacheStub:
+    def __init__(self, name_to_uuid, cols):
+        self.name_to_uuid = name_to_uuid
+        self.uuid_to_name = {u: n for n, u in name_to_uuid.items()}
+        self.cols = cols
+'''
+
+
+def union_scenarios(world: SqlWorld, branch):
+    """the Union branch on operand pairs: same order, permuted right side, right side with a hidden column.
+    -> list of (description, ok, detail)"""
+    p = world.p
+    for c in ast.parse(SEL_SRC).body:
+        world.env.setdefault(c.name, p.make_class(c, world.env))
+    out = []
+    scen = [
+        ("same order", ["a", "b", "c"], ["a", "b", "c"], []),
+        ("right side permuted", ["a", "b", "c"], ["c", "a", "b"], []),
+        ("right side reversed, hidden column in scope", ["a", "b"], ["b", "a"], ["h"]),
+        # the right columns were renamed (b -> a, a -> b earlier): their stored Col objects still carry the creation-time
+        # names, and a hidden column's creation-time name equals a visible name
+        ("right side reversed and renamed (stale creation-time names)", ["a", "b"], ["b", "a"], ["stale"]),
+    ]
+    for (label, lnames, rnames, rhidden), needed, distinct in itertools.product(scen, ("all", "first"), (False, True)):
+        if True:
+            luid = {n: f"L.{n}" for n in lnames}
+            ruid = {n: f"R.{n}" for n in rnames + rhidden}
+            stale = "stale" in rhidden
+            # creation-time names: normally the current ones; in the stale scenario the two visible columns have swapped names
+            # and the hidden column is called like the first visible one
+            created = {n: n for n in ruid}
+            if stale:
+                created = {rnames[0]: rnames[1], rnames[1]: rnames[0], "stale": rnames[0]}
+            rcols = {u: p.new("tree.col_expr", "Col", name=created[n], _ast=None, _uuid=u, _dtype=None, _ftype=None) for n, u in ruid.items()}
+            right_node = p.new("tree.verbs", "Ungroup", child=None, name="r")
+            compiled = []
+
+            def compile_ast(node, needed_cols, _r=right_node, _rn=rnames, _ru=ruid):
+                if node is _r:
+                    order = list(_rn)
+                elif isinstance(node, Obj) and node.cls.name == "Select" and node.attrs.get("child") is _r:
+                    cur = {u: n for n, u in _ru.items()}
+                    order = [cur[c.attrs["_uuid"]] for c in node.attrs["select"]]  # a select is by identity; names are the current ones
+                else:
+                    raise AnalysisError("sqlsim: the Union branch compiles an unexpected node")
+                q = world.query([_ru[n] for n in order], order_by=[Var("right-order")])
+                return (Var("right_table"), q, {_ru[n]: world.label(n) for n in _ru})
+
+            def compile_query(table, query, sqa_expr, _c=compiled):
+                s = p.call(world.env["SelectStub"], [[sqa_expr[u].attrs["name"] for u in query.attrs["select"]], list(query.attrs["order_by"]), table])
+                _c.append(s)
+                return s
+
+            cache_stub = p.call(world.env["CacheStub"], [{n: ruid[n] for n in rnames}, rcols])
+            p.import_overrides["Cache"] = _ModuleNS({"from_ast": Native(lambda node, _cs=cache_stub: _cs, "Cache.from_ast")})
+            nd = p.new("tree.verbs", "Union", child=None, right=right_node, distinct=distinct, name="l")
+            local = {
+                "nd": nd, "needed_cols": {luid[n]: 1 for n in (lnames if needed == "all" else lnames[:1])}, "sqa": world.sqa_ns(), "table": Var("left_table"),
+                "query": world.query([luid[n] for n in lnames], order_by=[Var("left-order")]),
+                "sqa_expr": {luid[n]: world.label(n) for n in lnames},
+                "cls": _ModuleNS({"compile_ast": Native(compile_ast, "cls.compile_ast"), "compile_query": Native(compile_query, "cls.compile_query")}),
+            }  # fmt: skip
+            try:
+                res = world.run_stmts(branch, local)
+            finally:
+                p.import_overrides.pop("Cache", None)
+            desc = f"{label}, distinct={distinct}, later verbs need {'every column' if needed == 'all' else 'only ' + lnames[0]}"
+            if len(compiled) != 2:
+                out.append((desc, False, f"the Union branch compiles {len(compiled)} SELECT statements instead of the two operands"))
+                continue
+            ln, rn = compiled[0].attrs["names"], compiled[1].attrs["names"]
+            if distinct or needed == "all":
+                # UNION removes duplicates over *all* selected columns: the operands must carry every visible column
+                out.append((f"{desc}: operands select {ln} / {rn}", ln == lnames and rn == lnames,
+                            f"union ({desc}): the left operand selects {ln}, the right operand {rn}; UNION matches columns by position"
+                            f"{' and removes duplicates over the selected columns' if distinct else ''}, so both must be {lnames}"))  # fmt: skip
+            else:
+                out.append((f"{desc}: operands select {ln} / {rn}", ln == rn and lnames[0] in ln and set(ln) <= set(lnames),
+                            f"union ({desc}): the left operand selects {ln}, the right operand {rn}; UNION ALL matches columns by position"))  # fmt: skip
+            ob = [s.attrs["order_by"] for s in compiled]
+            out.append((f"{desc}: operands carry no ORDER BY", ob == [[], []],
+                        f"union ({label}): an operand of the compound SELECT keeps ORDER BY {ob}"))  # fmt: skip
+            table = res.get("table")
+            kind = [t.fn for t in ([table] + list(getattr(table, "walk", lambda: [])())) if isinstance(t, Term) and t.fn.split(".")[-1] in ("union", "union_all")]
+            want = "union" if distinct else "union_all"
+            out.append((f"{desc}: {want}", bool(kind) and all(k.split(".")[-1] == want for k in kind),
+                        f"union(distinct={distinct}) builds {kind or 'no compound select'}; documented: {'UNION' if distinct else 'UNION ALL'}"))  # fmt: skip
+            q = res.get("query")
+            sel = q.attrs.get("select") if isinstance(q, Obj) else None
+            after = res.get("sqa_expr") or {}
+            names_after = [after[u].attrs["name"] if u in after and isinstance(after[u], Obj) else None for u in (sel or [])]
+            if distinct or needed == "all":
+                out.append((f"{desc}: result columns", sel == [luid[n] for n in lnames] and names_after == lnames,
+                            f"after the union the visible columns are {names_after} (identities {sel}); documented: the left table's columns {lnames}"))  # fmt: skip
+    return out
+
+
+def rename_scenarios(world: SqlWorld, branch):
+    """the Rename branch: visible columns get their new labels (also when a hidden column carries the same label), the
+    selection is untouched.  -> list of (description, ok, detail)"""
+    p = world.p
+    out = []
+    scen = [
+        ("plain rename", ["V1", "V2"], {"V1": "a", "V2": "b"}, {"a": "x"}, {"V1": "x", "V2": "b"}),
+        ("swap", ["V1", "V2"], {"V1": "a", "V2": "b"}, {"a": "b", "b": "a"}, {"V1": "b", "V2": "a"}),
+        ("hidden column labelled like the renamed visible one, hidden first", ["V1"], {"H": "b", "V1": "b", "V2": "c"}, {"b": "d"}, {"V1": "d"}),
+        ("hidden column labelled like the renamed visible one, hidden last", ["V1"], {"V1": "b", "V2": "c", "H": "b"}, {"b": "d"}, {"V1": "d"}),
+        ("hidden column labelled like the new name", ["V1"], {"V1": "a", "H": "x"}, {"a": "x"}, {"V1": "x"}),
+    ]
+    for label, select, labels, name_map, want in scen:
+        nd = p.new("tree.verbs", "Rename", child=None, name="t", name_map=dict(name_map))
+        local = {
+            "nd": nd, "needed_cols": {}, "sqa": world.sqa_ns(), "table": Var("table"), "query": world.query(list(select)),
+            "sqa_expr": {u: world.label(n) for u, n in labels.items()},
+        }  # fmt: skip
+        res = world.run_stmts(branch, local)
+        after = res["sqa_expr"]
+        got = {u: (after[u].attrs["name"] if u in after and isinstance(after[u], Obj) else None) for u in want}
+        q = res["query"]
+        sel_ok = isinstance(q, Obj) and q.attrs.get("select") == list(select)
+        out.append((label, got == want and sel_ok and set(after) == set(labels),
+                    f"rename {name_map} with labels {labels} (visible: {select}): afterwards the visible columns are labelled {got}, documented {want}; "
+                    f"selection {q.attrs.get('select') if isinstance(q, Obj) else q}"))  # fmt: skip
+    return out
